@@ -251,4 +251,6 @@ func runC06(e *Engine, r *Report) {
 	ruleReadyKeyedByCtx(e, r)
 	borrow(e, r, "C03", "GD-campaign-pred")
 	ruleConfirmFromAllVoters(e, r)
+	ruleReadIndexRespIndex(e, r)
+	ruleHeartbeatRespProducer(e, r)
 }
